@@ -66,7 +66,7 @@ Lemma pm_kind_bounds p m : stm p < 2 -> pm_kind p m ->
   mfrom m < 64 /\ mto m < 64 /\ mtype m < 4 /\ 3 <= mprom m <= 6.
 Proof.
   intros Hs [H1 H2 H3 H4 H5 H6 | H1 H2 H3 H4 H5 H6 H7 H8 | kf kt rf bt empties Hc Hm Hk Hr He].
-  - repeat split; try assumption; destruct H6 as [[-> ->]|[-> [_ ?]]]; unfold NORMAL, PROMOTION; lia.
+  - repeat split; try assumption; destruct H6 as [[E1 E2]|[E1 [_ E2]]]; rewrite ?E1, ?E2; unfold NORMAL, PROMOTION; lia.
   - rewrite H1, H2. unfold ENPASSANT. repeat split; try assumption; lia.
   - subst m. cbn [mfrom mto mtype mprom].
     assert (stm p = 0 \/ stm p = 1) as [E|E] by lia; rewrite E in Hc; cbn [castles N.eqb WHITE] in Hc;
@@ -136,3 +136,88 @@ Proof.
   rewrite at_put by (try rewrite !put_length; assumption). destruct (a =? kt); [reflexivity|].
   now rewrite at_put.
 Qed.
+
+Lemma king_sq_own p K : lfacts p K ->
+  king_sq (brd p) (stm p) < 64 /\ at_ (brd p) (king_sq (brd p) (stm p)) = mk_piece (stm p) KING.
+Proof. intros H. apply (lf_own_king _ _ H). Qed.
+
+Lemma col_of_mk c ty : ty < 8 -> colour_of (mk_piece c ty) = c.
+Proof. intros H. now destruct (mk_piece_parts c ty H). Qed.
+
+Lemma own_king_after p m K : legal_pos p = true -> lfacts p K -> pm_kind p m ->
+  exists k', king_sq (brd (make p m)) (stm p) = k' /\ k' < 64 /\
+             at_ (brd (make p m)) k' = mk_piece (stm p) KING.
+Proof.
+  intros Hlp Hf Hk. pose proof Hf as [Hl Hv Hs HKe HK HKat HKu [Hok1 Hok2] Hou Hno].
+  set (b := brd p) in *. set (c := stm p) in *. set (k0 := king_sq b c) in *.
+  destruct Hk as [H1 H2 H3 H4 H5 H6 | H1 H2 H3 H4 H5 H6 H7 H8 | kf kt rf bt empties Hc Hm Hk Hr He].
+  - (* normal move or promotion *)
+    assert (Hmt : mtype m = NORMAL \/ mtype m = PROMOTION) by (destruct H6 as [[? _]|[? _]]; tauto).
+    pose proof (at_make_simple p m Hl H1 H2 Hmt) as Hat. fold b c in Hat.
+    set (f := mfrom m) in *. set (t := mto m) in *.
+    assert (Hft : f <> t).
+    { intros E. destruct H5 as [H0|[_ [H0 _]]]; rewrite <- E in H0; contradiction. }
+    assert (Hk0t : k0 <> t).
+    { intros E. destruct H5 as [H0|[_ [H0 _]]]; rewrite <- E in H0; rewrite Hok2 in H0.
+      - unfold mk_piece, KING in H0. lia.
+      - rewrite col_of_mk in H0 by (unfold KING; lia). contradiction. }
+    destruct (N.eq_dec (at_ b f) (mk_piece c KING)) as [Ek|Ek].
+    + (* the king moves *)
+      assert (Hn : mtype m = NORMAL).
+      { destruct H6 as [[? _]|[_ [E _]]]; [assumption|]. rewrite Ek in E.
+        destruct (mk_piece_parts c KING) as [_ Ht']; [unfold KING; lia|]. rewrite Ht' in E. discriminate. }
+      exists t. split; [|split; [exact H2|]].
+      * apply (own_king_intro b _ c t [f; t]); try assumption.
+        -- rewrite Hat, N.eqb_refl, Hn. change (NORMAL =? PROMOTION) with false. cbv iota. exact Ek.
+        -- intros a _ Hn'. rewrite Hat. cbn [In] in Hn'.
+           destruct (N.eqb_spec a t); [exfalso; apply Hn'; auto|].
+           destruct (N.eqb_spec a f); [exfalso; apply Hn'; auto|reflexivity].
+        -- intros a [<-|[<-|[]]] Hne; [|contradiction]. rewrite Hat.
+           apply N.eqb_neq in Hft. rewrite Hft, N.eqb_refl. unfold mk_piece, KING. lia.
+        -- intros s Hs' Hs'' Hnin. exfalso. apply Hnin. left.
+           pose proof (Hou s Hs' Hs''). pose proof (Hou f H1 Ek). congruence.
+      * rewrite Hat, N.eqb_refl, Hn. change (NORMAL =? PROMOTION) with false. cbv iota. exact Ek.
+    + (* another piece moves *)
+      assert (Hk0f : k0 <> f) by (intros E; apply Ek; rewrite <- E; exact Hok2).
+      assert (Hat0 : at_ (brd (make p m)) k0 = mk_piece c KING).
+      { rewrite Hat. apply N.eqb_neq in Hk0t, Hk0f. now rewrite Hk0t, Hk0f. }
+      exists k0. split; [|split; [exact Hok1|exact Hat0]].
+      apply (own_king_intro b _ c k0 [f; t]); try assumption.
+      * intros a _ Hn'. rewrite Hat. cbn [In] in Hn'.
+        destruct (N.eqb_spec a t); [exfalso; apply Hn'; auto|].
+        destruct (N.eqb_spec a f); [exfalso; apply Hn'; auto|reflexivity].
+      * intros a [<-|[<-|[]]] Hne; rewrite Hat.
+        -- apply N.eqb_neq in Hft. rewrite Hft, N.eqb_refl. unfold mk_piece, KING. lia.
+        -- rewrite N.eqb_refl. destruct H6 as [[E1 _]|[E1 [_ E2]]]; rewrite E1.
+           ++ change (NORMAL =? PROMOTION) with false. cbv iota. exact Ek.
+           ++ change (PROMOTION =? PROMOTION) with true. cbv iota. unfold mk_piece, KING. lia.
+      * intros s Hs' Hs'' _. now apply Hou.
+  - (* en passant *)
+    assert (Hne : ep p <> 64) by (rewrite <- H4; lia).
+    destruct (legal_ep_facts p Hlp Hne) as (Hr & _ & Hvic). rewrite <- H4 in Hr, Hvic.
+    pose proof (at_make_ep p m Hl Hs H3 H5 Hr H1 H8) as Hat. fold b c in Hat, Hvic.
+    set (f := mfrom m) in *. set (t := mto m) in *. set (v := ep_victim c t) in *.
+    assert (Hk0 : k0 <> f /\ k0 <> t /\ k0 <> v).
+    { repeat split; intros E; rewrite E in Hok2; rewrite Hok2 in *.
+      - unfold mk_piece, KING, PAWN in H6. lia.
+      - unfold mk_piece, KING in H7. lia.
+      - unfold mk_piece, KING, PAWN, flip in Hvic. lia. }
+    destruct Hk0 as (N1 & N2 & N3).
+    assert (Hat0 : at_ (brd (make p m)) k0 = mk_piece c KING).
+    { rewrite Hat. apply N.eqb_neq in N1, N2, N3. now rewrite N3, N2, N1. }
+    exists k0. split; [|split; [exact Hok1|exact Hat0]].
+    apply (own_king_intro b _ c k0 [f; t; v]); try assumption.
+    + intros a _ Hn'. rewrite Hat. cbn [In] in Hn'.
+      destruct (N.eqb_spec a v); [exfalso; apply Hn'; auto|].
+      destruct (N.eqb_spec a t); [exfalso; apply Hn'; auto|].
+      destruct (N.eqb_spec a f); [exfalso; apply Hn'; auto|reflexivity].
+    + intros a Hin _. rewrite Hat.
+      destruct (a =? v); [unfold mk_piece, KING; lia|].
+      destruct (a =? t); [rewrite H6; unfold mk_piece, KING, PAWN; lia|].
+      destruct (N.eqb_spec a f) as [_|Hnf]; [unfold mk_piece, KING; lia|].
+      exfalso. destruct Hin as [E|[E|[E|[]]]]; try (symmetry in E; contradiction).
+      * admit.
+      * admit.
+    + intros s Hs' Hs'' _. now apply Hou.
+  - admit.
+Admitted.
